@@ -170,10 +170,11 @@ func connReleased(c *Ctx, f *ssa.Function, dial *ssa.Call) (bool, string) {
 // ---------------------------------------------------------------------------
 
 func checkC19(c *Ctx, r *Report) {
-	r.Explanation = "Two structural necessary conditions, timing itself is not decidable statically: (R1) 'the answer acted upon is the answer to the request sent' needs a correlation test - the success return of each client function must be control-dependent on a comparison that depends on both an identifier of the decoded answer and the corresponding identifier of the request; (R2) 'a late answer never prevents later requests from completing' needs a handler that cannot block for ever - the send in the answer handlers must be non-blocking (select with default / time-out) or target a channel with capacity >= 1 created per request."
+	r.Explanation = "Two structural necessary conditions, timing itself is not decidable statically: (R1) 'the answer acted upon is the answer to the request sent' needs a correlation test - the success return of each client function must be control-dependent on a comparison that depends on both an identifier of the decoded answer and the corresponding identifier of the request; (R2) 'a late answer never prevents later requests from completing' needs a handler that cannot block for ever - the send in the answer handlers must be non-blocking (select with default / time-out) or target a channel with capacity >= 1 created per request; (R3) nothing but the requesting client function receives from the per-subscriber hand-over channel, and the channel value is handed to nothing but the answer handler's constructor - a second receiver would take the answer of the subscriber's next request."
 	r.Undecided = []string{"timing: whether a given delay pattern actually produces a stale answer", "fairness of select"}
 	r.rule("C19.R1", "the answer is correlated with the request before it is returned to the charging operation", 2)
 	r.rule("C19.R2", "the Diameter answer handler cannot block for ever on the hand-over channel", 2)
+	r.rule("C19.R3", "the per-subscriber answer channel has one kind of receiver: the client function that sent the request", 2)
 
 	for _, a := range [][3]string{
 		{"internal/abmf", "SendAccountDebitRequest", "CC-Request-Number / Session-Id"},
@@ -243,6 +244,8 @@ func checkC19(c *Ctx, r *Report) {
 		}
 	}
 
+	c19SingleConsumer(c, r, "C19.R3")
+
 	for _, a := range [][2]string{{"internal/abmf", "HandleCCA"}, {"internal/rating", "HandleSUA"}} {
 		outer := c.fn(a[0], a[1])
 		for _, f := range outer.AnonFuncs {
@@ -274,6 +277,102 @@ func checkC19(c *Ctx, r *Report) {
 				r.viol("C19.R2", key, c.rel(f.Pos()), "answer handler does not hand the answer over")
 			}
 		}
+	}
+}
+
+// c19SingleConsumer (R3): the hand-over channel of a subscriber has exactly one
+// kind of receiver - the client function that sent the request and waits for
+// its answer (it runs under the subscriber's lock, so one at a time).  Every
+// other use of the channel value must be a send by the answer handler.  A
+// second receiver (a "drain" goroutine, a helper the channel is handed to)
+// competes with the next request for that request's answer.
+func c19SingleConsumer(c *Ctx, r *Report, rule string) {
+	ue := c.namedType("internal/context", "ChfUe")
+	st := ue.Underlying().(*types.Struct)
+	chanFields := map[string]bool{}
+	for i := 0; i < st.NumFields(); i++ {
+		if _, ok := st.Field(i).Type().Underlying().(*types.Chan); ok {
+			chanFields[st.Field(i).Name()] = true
+		}
+	}
+	clients := map[*ssa.Function]bool{c.fn("internal/abmf", "SendAccountDebitRequest"): true, c.fn("internal/rating", "SendServiceUsageRequest"): true}
+	ctors := map[*ssa.Function]bool{c.fn("internal/abmf", "HandleCCA"): true, c.fn("internal/rating", "HandleSUA"): true}
+	type site struct {
+		f     *ssa.Function
+		field string
+	}
+	seen := map[site][]string{}
+	pos := map[site]string{}
+	var order []site
+	for _, f := range c.ModFuncs {
+		eachInstr(f, func(_ *ssa.BasicBlock, _ int, ins ssa.Instruction) {
+			ld, ok := ins.(*ssa.UnOp)
+			if !ok || ld.Op != token.MUL {
+				return
+			}
+			fa, ok := ld.X.(*ssa.FieldAddr)
+			if !ok || !typeIs(fa.X.Type(), ctxPath, "ChfUe") || !chanFields[fieldName(fa)] {
+				return
+			}
+			k := site{f, fieldName(fa)}
+			if _, ok := seen[k]; !ok {
+				order = append(order, k)
+				seen[k] = nil
+				pos[k] = posOf(c, ld)
+			}
+			refs := append([]ssa.Instruction{}, *ld.Referrers()...)
+			for i := 0; i < len(refs); i++ {
+				// a direction conversion (chan -> <-chan) is still the same channel
+				if ct, ok := refs[i].(*ssa.ChangeType); ok {
+					refs = append(refs, *ct.Referrers()...)
+				}
+			}
+			for _, ref := range refs {
+				bad := ""
+				switch x := ref.(type) {
+				case *ssa.ChangeType:
+				case *ssa.UnOp:
+					if x.Op == token.ARROW && !clients[f] {
+						bad = "receives from it"
+					}
+				case *ssa.Select:
+					for _, stt := range x.States {
+						if stt.Chan == ssa.Value(ld) && stt.Dir == types.RecvOnly && !clients[f] {
+							bad = "receives from it in a select"
+						}
+					}
+				case *ssa.Send:
+					// sends are the handler's business (R2)
+				case ssa.CallInstruction:
+					com := x.Common()
+					if b, isB := com.Value.(*ssa.Builtin); isB && (b.Name() == "len" || b.Name() == "cap") {
+						break
+					}
+					if sc := com.StaticCallee(); sc != nil && ctors[sc] {
+						break // the answer handler is built for this channel (it only sends: R2)
+					}
+					if _, isGo := x.(*ssa.Go); isGo {
+						bad = "hands it to a goroutine (" + callName(x) + ")"
+					} else {
+						bad = "hands it to " + callName(x)
+					}
+				case *ssa.DebugRef:
+				default:
+					bad = "lets it escape (" + describe(ref.(ssa.Value)) + ")"
+				}
+				if bad != "" {
+					seen[k] = append(seen[k], bad+" at "+posOf(c, ref))
+				}
+			}
+		})
+	}
+	for _, k := range order {
+		role := "sends to / builds the handler for"
+		if clients[k.f] {
+			role = "is the requester that waits on"
+		}
+		r.check(len(seen[k]) == 0, rule, fnKey(k.f)+"|ChfUe."+k.field, pos[k], fnKey(k.f)+" "+role+" the channel and nothing else touches it here",
+			"besides the requesting client function, "+fnKey(k.f)+" "+strings.Join(seen[k], "; ")+": a second receiver on the per-subscriber answer channel takes the answer of the subscriber's next request, which then times out although its peer answered")
 	}
 }
 
